@@ -104,7 +104,10 @@ class CHECK(Check):
     # ---- implementation
     def impl(self, case):
         from cfinterface.components.line import Line
-        vals = [fl.py_value(v) for v in case["values"]]
+        import hashlib, json
+        h = int(hashlib.sha1(json.dumps(case, sort_keys=True).encode()).hexdigest(), 16)
+        # half of the cases hand the values over as numpy scalars / integral floats / bool / pandas Timestamp
+        vals = [fl.py_value_typed(v, (h >> (3 * i + 1)) if h & 1 else 0) for i, v in enumerate(case["values"])]
         if case["setters"] is None:
             line = Line([fl.mk_field(fd) for fd in case["fields"]])
         else:
